@@ -1114,7 +1114,48 @@ func init() {
 								tv, ok := info.Types[ce.Args[1]]
 								return ok && tv.Value != nil && tv.Value.ExactString() == `"lisp:"`
 							}
+							// ... or from a helper of the package that does the stripping and returns the
+							// bare name (`name := checkedCoreName(sexpr, fileDefs)`)
+							isStripHelper := func(e ast.Expr) bool {
+								ce, ok := ast.Unparen(e).(*ast.CallExpr)
+								if !ok {
+									return false
+								}
+								h := originOf(Callee(info, ce))
+								hd := c.declOf[h]
+								if h == nil || hd == nil || hd.Body == nil || h.Pkg() != p.Types {
+									return false
+								}
+								local := map[types.Object]bool{}
+								ast.Inspect(hd.Body, func(m ast.Node) bool {
+									var as *ast.AssignStmt
+									switch x := m.(type) {
+									case *ast.AssignStmt:
+										as = x
+									case *ast.IfStmt:
+										as, _ = x.Init.(*ast.AssignStmt)
+									}
+									if as != nil && len(as.Rhs) == 1 && isStrip(as.Rhs[0]) && len(as.Lhs) >= 1 {
+										if o := identObj(info, as.Lhs[0]); o != nil {
+											local[o] = true
+										}
+									}
+									return true
+								})
+								returnsBare := false
+								for _, rs := range returnsOf(hd.Body) {
+									if len(rs.Results) >= 1 && (local[identObj(info, rs.Results[0])] || isStrip(rs.Results[0])) {
+										returnsBare = true
+									}
+								}
+								return returnsBare
+							}
 							collect := func(lhs []ast.Expr, rhs []ast.Expr) {
+								if len(rhs) == 1 && isStripHelper(rhs[0]) && len(lhs) >= 1 {
+									if o := identObj(info, lhs[0]); o != nil {
+										fromStrip[o] = true
+									}
+								}
 								if len(rhs) == 1 && isStrip(rhs[0]) && len(lhs) >= 1 {
 									if o := identObj(info, lhs[0]); o != nil {
 										fromStrip[o] = true
